@@ -31,7 +31,7 @@ META = {
         'C03.ROW-SIBLING - the row-rendering loop of append is isomorphic to that of write modulo the data source; '
         'C03.CASEKEY - append finds the table under sym.lower() or sym and treats as pairs exactly the keys whose '
         'upper() is not a table; C03.MEMO-DATA - no per-object memo cache stores a value computed from table data '
-        '(append changes data; a stale memo makes object and file diverge). NOT decided: that re-parsing _contents '
+        '(append changes data; a stale memo makes object and file diverge); C03.ROW-SOURCE - every cell of an appended row is read from the data handed to append and every cell of a written row from the object; C03.EMPTY-APPEND - `nothing to append` is decided on the tables and pairs that would be written, before any file is opened. NOT decided: that re-parsing _contents '
         'yields original-followed-by-appended rows (parser behaviour, C01/C02), raw-mode equality, byte-level content.'),
     'floors': {'C03.ROW-SOURCE': 2, 'C03.W-GUARD': 1, 'C03.A-GUARD': 1, 'C03.MODES': 3, 'C03.REFUSAL-PURE': 6, 'C03.COHERENT': 5,
                'C03.ROW-SIBLING': 1, 'C03.CASEKEY': 2, 'C03.MEMO-DATA': 3, 'C03.EMPTY-APPEND': 1},
